@@ -26,7 +26,8 @@ GOALS = {'quick': ['two port variables on one node', 'dotdot in a path',
                    '_path dictionary with the empty path',
                    'scalar port on a top-level variable',
                    'port split by a plain dictionary',
-                   'glob port wired by a dictionary under *'],
+                   'glob port wired by a dictionary under *',
+                   'scalar port under set'],
          'thorough': ['two port variables on one node', 'dotdot in a path',
                       '_path dictionary port', 'glob port', 'scalar port',
                       'nested schema port', 'glob below a glob',
@@ -34,7 +35,8 @@ GOALS = {'quick': ['two port variables on one node', 'dotdot in a path',
                       '_path dictionary with the empty path',
                       'scalar port on a top-level variable',
                       'port split by a plain dictionary',
-                      'glob port wired by a dictionary under *']}
+                      'glob port wired by a dictionary under *',
+                      'scalar port under set']}
 STUBS = ['one process whose ports schema / topology are produced by a generator '
          'driven by solver-decided choices; it records the states of its first '
          'invocation and returns symbolic updates for every port variable',
@@ -91,6 +93,7 @@ def jobs(tier):
                             other_kinds=6 if q else len(KINDS),
                             budget_s=100 if q else 1500,
                             crosscheck=0 if q else 20))
+    out.append(dict(name='scalar-set', part='scalar_set', budget_s=60))
     out.append(dict(name='glob-below-glob', part='globglob',
                     budget_s=100 if q else 600))
     return out
@@ -192,9 +195,44 @@ def globglob(ctx, cfg):
     ctx.claim('C06.write', AND(write), sig='write-glob-below-glob', info=info)
 
 
+def scalar_set(ctx, cfg):
+    """Ports that are themselves variables, under the `set` updater: the node
+    ends up holding what was written, also when that is 0 / False."""
+    v0 = ctx.int('v', 1, 9)
+    u = ctx.int('u', -2, 2)           # includes 0
+    off = ctx.flag('off')
+    depth = ctx.choice('depth', 2)
+    parent = [(), ('agents', 'a1')][depth]
+    up = ('..',) * len(parent)
+    proc = P({'level': {'_default': 5, '_updater': 'set'},
+              'enabled': {'_default': True, '_updater': 'set'},
+              'pool': {'count': {'_default': 5, '_updater': 'set'}}})
+    proc.upd = {'level': u, 'enabled': not off, 'pool': {'count': u}}
+    e = Engine(processes=nest({'proc': proc}, parent),
+               topology=nest({'proc': {'level': up + ('A', 'level'),
+                                       'enabled': up + ('A', 'enabled'),
+                                       'pool': up + ('B',)}}, parent),
+               initial_state={'A': {'level': v0}, 'B': {'count': v0}},
+               display_info=False, emitter='null')
+    e.update(1)
+    final = e.state.get_value()
+    ctx.goal('scalar port under set')
+    ctx.claim('C06.write', AND(EQ(final['A']['level'], u),
+                               final['A']['enabled'] is (not off),
+                               EQ(final['B']['count'], u)),
+              sig='write-scalar-set', info=lambda: dict(
+                  written=proc.upd, final={'A': final['A'], 'B': final['B']}))
+    ctx.claim('C06.read', AND(EQ(proc.seen['level'], v0),
+                              proc.seen['enabled'] is True,
+                              EQ(proc.seen['pool']['count'], v0)),
+              sig='read-scalar-set', info=lambda: dict(seen=proc.seen))
+
+
 def body(ctx, cfg):
     if cfg.get('part') == 'globglob':
         return globglob(ctx, cfg)
+    if cfg.get('part') == 'scalar_set':
+        return scalar_set(ctx, cfg)
     depth = cfg['depth']
     parent = [(), ('agents',), ('agents', 'a1')][depth]
     schema, topo = {}, {}
